@@ -3,7 +3,7 @@ import re
 
 from cfg import cfg_of
 from expr import Exprs, fmt, walk, contains
-from mirutil import is_call, for_loops, dominating_conds, cond_bool, result_fate, error_blocks
+from mirutil import is_call, for_loops, dominating_conds, cond_bool, result_fate, error_blocks, try_sites
 from framework import site_of
 import callgraph as cgmod
 
@@ -395,6 +395,29 @@ def run(F, rep):
             for bi, site in sites:
                 rep.ob("C08-H3", "eviction from the reference cache in %s is harmless: the filler tests for a miss and reloads" % k.rsplit("::", 1)[-1], miss,
                        site=site, key="C08-H3 | %s | eviction" % k)
+    # a failed query leaves no trace: in the filler, the cache is touched only when the value is complete - no error exit is
+    # reachable after a write (insert / entry / or_default ...) into the cache, otherwise a failed load leaves a placeholder
+    # that later queries take for a loaded entry
+    for fk in sorted(fillers):
+        ff = F.funcs[fk]
+        gf = cfg_of(ff)
+        exf = Exprs(ff)
+        errb = {x["err"] for x in try_sites(ff) if x["err"] is not None}
+        for bi2, b2 in enumerate(ff.blocks):
+            for s_ in b2["stmts"]:
+                if s_["k"] == "assign" and s_["pl"]["l"] == 0 and not s_["pl"]["p"] and s_["rv"]["k"] == "agg" and s_["rv"].get("var") == "Err":
+                    errb.add(bi2)
+        for bi, t in ff.calls():
+            if t.get("indirect") or "HashMap" not in t["callee"] or not re.search(r"::(insert|entry|or_default|or_insert\w*|get_or_insert\w*|try_insert)$", t["callee"]):
+                continue
+            recv = exf.operand(t["args"][0]) if t["args"] else None
+            if not (isinstance(recv, tuple) and recv[0] == "field" and recv[2] == "segment_cache"):
+                continue
+            reach = gf.reachable_from(bi)
+            late = sorted(b for b in errb if b in reach and b != bi)
+            rep.ob("C08-H3", "%s touches the reference cache only with a complete value (no error exit after the cache write)" % fk.rsplit("::", 1)[-1], not late,
+                   detail="error exits reachable after the %s: %s" % (t["callee"].rsplit("::", 1)[-1], [site_of(ff, ff.blocks[b]["term"]) for b in late[:3]]) if late else "the write is the last fallible-free step",
+                   site=site_of(ff, t), key="C08-H3 | %s | no error after cache write" % fk)
     rep.stat("cache_readers", sorted(readers))
     rep.stat("cache_evictors", sorted(evictors))
 
